@@ -897,6 +897,40 @@ fn kf_cfb_v4_container_without_mini_stream() {
     assert_eq!(rb.get_value((0, 0)), Some(&Data::Float(42.0)));
 }
 
+// C16 / C14: XLUnicodeStringNoCch stored as 16-bit characters
+
+#[test]
+fn kf_xls_utf16_defined_name_and_formula_string() {
+    // ExternSheet: one XTI -> sheet 0
+    let mut xti = 1u16.to_le_bytes().to_vec();
+    xti.extend_from_slice(&[0, 0, 0, 0, 0, 0]);
+    // Lbl: name "\u{3a9}ab" stored with fHighByte = 1, definition Sheet1!$A$1 (PtgRef3d)
+    let name: Vec<u16> = "\u{3a9}ab".encode_utf16().collect();
+    let rgce = [0x3Au8, 0, 0, 0, 0, 0, 0];
+    let mut lbl = vec![0u8, 0, 0, name.len() as u8];
+    lbl.extend_from_slice(&(rgce.len() as u16).to_le_bytes());
+    lbl.extend_from_slice(&[0u8; 8]);
+    lbl.push(1);
+    for c in &name {
+        lbl.extend_from_slice(&c.to_le_bytes());
+    }
+    lbl.extend_from_slice(&rgce);
+    // formula  "\u{3a9}x"&"y" : PtgStr (16-bit), PtgStr (8-bit), PtgConcat
+    let mut f = vec![0x17u8, 2, 1];
+    for c in "\u{3a9}x".encode_utf16() {
+        f.extend_from_slice(&c.to_le_bytes());
+    }
+    f.extend_from_slice(&[0x17, 1, 0, b'y', 0x08]);
+    let recs = vec![formula_rec_rgce(0, 0, &f)];
+    let stream = workbook_stream(&[(0x0017, xti), (0x0018, lbl)], &[0], &recs);
+    let mut wb: Xls<_> = Xls::new(Cursor::new(cfb_with_workbook(&stream))).unwrap();
+    let names = wb.defined_names().to_vec();
+    assert_eq!(names.len(), 1);
+    assert_eq!(names[0].0, "\u{3a9}ab", "a defined name stored as 16-bit characters must not be cut in half");
+    let fm = wb.worksheet_formula("Sheet1").unwrap();
+    assert_eq!(fm.get_value((0, 0)).map(|s| s.as_str()), Some("\"\u{3a9}x\"&\"y\""));
+}
+
 // C10 / R-FMT-SCAN
 
 #[test]
